@@ -66,8 +66,8 @@ def summarize(rep: runner.Report, tasks, results, mode):
     from collections import Counter
     c = Counter()
     paths = obligations = 0
-    agg = {"solver_sat": 0, "solver_unsat": 0, "solver_unknown": 0, "solver_seconds": 0.0, "forked_branches": 0,
-           "forced_branches": 0, "slowest_query_seconds": 0.0}
+    agg = {k: 0 for k in runner.STAT_KEYS}
+    agg.update({"solver_seconds": 0.0, "slowest_query_seconds": 0.0})
     nontrivial = set()
     samples = []
     unconfirmed = 0
